@@ -208,6 +208,14 @@ Interpolation::Interpolation(const std::vector<double>& arg_values, const std::v
 		std::cerr << "Error in libphysica::Interpolation::Interpolation(): At least two points are required, not " << N << "." << std::endl;
 		std::exit(EXIT_FAILURE);
 	}
+	// Transform units
+	if(x_dim > 0.0)
+		for(unsigned int i = 0; i < N; i++)
+			x_values[i] *= x_dim;
+	if(f_dim > 0.0)
+		for(unsigned int i = 0; i < N; i++)
+			function_values[i] *= f_dim;
+	// The arguments must be strictly increasing in the units they are stored in (scaling can round two of them onto one double)
 	for(unsigned int i = 1; i < N; i++)
 	{
 		if(x_values[i] <= x_values[i - 1])
@@ -216,13 +224,6 @@ Interpolation::Interpolation(const std::vector<double>& arg_values, const std::v
 			std::exit(EXIT_FAILURE);
 		}
 	}
-	// Transform units
-	if(x_dim > 0.0)
-		for(unsigned int i = 0; i < N; i++)
-			x_values[i] *= x_dim;
-	if(f_dim > 0.0)
-		for(unsigned int i = 0; i < N; i++)
-			function_values[i] *= f_dim;
 
 	domain = {x_values[0], x_values[N - 1]};
 	Compute_Steffen_Coefficients();
